@@ -1320,6 +1320,12 @@ fn verify_support_type_for_prune(from_type: &DataType, to_type: &DataType) -> Re
         }
         _ => to_type,
     };
+    // Casting a number to boolean is not monotone (-1 -> true, 0 -> false, 1 -> true).
+    if to_type == &DataType::Boolean && from_type != &DataType::Boolean {
+        return plan_err!(
+            "Try Cast/Cast with from type {from_type} to type {to_type} is not supported"
+        );
+    }
     // If both types are strings or both are not strings (number, timestamp, etc)
     // then we can compare them.
     // PruningPredicate does not support casting of strings to numbers and such.
